@@ -6,6 +6,7 @@ C10 / C11).  It supports the search for failing inputs and the validation of the
 it never stands in for a theorem (DESIGN.md 1, 3.3).
 """
 import collections
+import copy
 import json
 import random
 
@@ -342,8 +343,20 @@ def cached_spec_changes(known):
     return out
 
 
+def _core_view(v):
+    """What a refused / absorbed message must leave alone: states of all executions, accepted flags, the task set."""
+    out = {}
+    for k, w in v['wf'].items():
+        out['wf:' + k] = (w['state'], json.dumps(w['output'], sort_keys=True, default=str))
+    for k, t in v['tasks'].items():
+        out['task:' + k] = (t['state'], json.dumps(t['published'], sort_keys=True, default=str))
+    for k, a in v['actions'].items():
+        out['act:' + k] = (a['state'], a['accepted'])
+    return out
+
+
 # ------------------------------------------------------------------ one run
-def run_one(d, prog, seed, inject_pause=False, inject_evict=False, pause_rate=0.06):
+def run_one(d, prog, seed, inject_pause=False, inject_evict=False, pause_rate=0.06, inject_dup=False):
     """Seeded schedule with virtual clock on the real engine; oracles after every event."""
     d.reset(seed)
     d.create_workflows(prog['yaml'])
@@ -358,6 +371,7 @@ def run_one(d, prog, seed, inject_pause=False, inject_evict=False, pause_rate=0.
     n_events = [0]
     max_running = [0]
     finished = {}
+    delivered = []
     done_tasks = set()
     done_acts = {}
 
@@ -467,7 +481,29 @@ def run_one(d, prog, seed, inject_pause=False, inject_evict=False, pause_rate=0.
                 resumes += 1
                 continue
             break
+        if inject_dup and delivered and rng.random() < 0.12:
+            # C06: a message delivered before (action / sub-workflow result, start-task request) is delivered once more: it
+            # must be refused or absorbed - no state of any execution changes, nothing is created
+            it = delivered[rng.randrange(len(delivered))]
+            before = _core_view(d.view())
+            o = d.redeliver(it)
+            after = _core_view(d.view())
+            steps += 1
+            n_events[0] += 1
+            if after != before and not any(f['signature'].startswith('duplicate-changed-state') for f in fails):
+                diff = sorted(k for k in set(before) | set(after) if before.get(k) != after.get(k))[:4]
+                repaused = (it['payload'].get('method') == 'start_task' and 'pause-before: true' in prog['yaml'] and
+                            all(k.startswith('wf:') and before.get(k, ('',))[0] == 'RUNNING' and after.get(k, ('',))[0] == 'PAUSED' for k in diff))
+                fails.append({'property': 'C06', 'signature': ('duplicate-start-repauses:pause-before' if repaused else
+                                                              'duplicate-changed-state:%s:%s' % (it['payload'].get('method'), meta['feature'])),
+                              'what': 'a second delivery of %s (%s) changed %s' % (it['payload'].get('method'), o, [(k, before.get(k), after.get(k)) for k in diff])})
+            check('dup')
+            continue
         ev = evs[rng.randrange(len(evs))]
+        if ev[0] == 'item':
+            it0 = d.pending.get(ev[1]) if hasattr(d.pending, 'get') else None
+            if it0 and it0.get('kind') == 'rpc' and it0['payload'].get('method') in ('on_action_complete', 'start_task'):
+                delivered.append(copy.copy(it0))
         o = d.fire(ev)
         steps += 1
         on_event(ev, o)
@@ -608,15 +644,15 @@ def _worker(job):
         d = ed.Driver(job.get('sched', 'legacy'), 0)
         _W['d'] = d
     r = run_one(d, job['prog'], job['seed'], inject_pause=job.get('pause', False), inject_evict=job.get('evict', False),
-                pause_rate=job.get('pause_rate', 0.06))
+                pause_rate=job.get('pause_rate', 0.06), inject_dup=job.get('dup', False))
     r['job'] = {'seed': job['seed'], 'sched': job.get('sched', 'legacy'), 'pause': job.get('pause', False), 'evict': job.get('evict', False),
-                'pause_rate': job.get('pause_rate', 0.06), 'gi': job.get('gi')}
+                'pause_rate': job.get('pause_rate', 0.06), 'dup': job.get('dup', False), 'gi': job.get('gi')}
     r['yaml'] = job['prog']['yaml']
     r['oracle'] = {json.dumps(k): v for k, v in job['prog']['oracle'].items()}
     return r
 
 
-def explore(ctx, props, features, n_programs, n_schedules, suite='engine_explore', pause_heavy=False):
+def explore(ctx, props, features, n_programs, n_schedules, suite='engine_explore', pause_heavy=False, dups=False):
     import multiprocessing as mp
     rng = random.Random('%s/%s' % (suite, ctx.seed))
     jobs = []
@@ -626,7 +662,7 @@ def explore(ctx, props, features, n_programs, n_schedules, suite='engine_explore
         for k in range(n_schedules):
             jobs.append({'prog': prog, 'seed': ctx.seed * 9973 + gi * 131 + k, 'gi': gi, 'sched': 'default' if k % 3 == 2 else 'legacy',
                          'pause': (k % 4 == 3) or (pause_heavy and k > 0), 'evict': (k % 2 == 1),
-                         'pause_rate': [0.06, 0.12, 0.25][k % 3] if pause_heavy else 0.06})
+                         'pause_rate': [0.06, 0.12, 0.25][k % 3] if pause_heavy else 0.06, 'dup': dups and k > 0})
     with mp.get_context('spawn').Pool(min(core.NPROC, max(1, len(jobs) // 4))) as pool:
         results = pool.map(_worker, jobs, chunksize=max(1, len(jobs) // (core.NPROC * 4)))
     by = collections.defaultdict(list)
@@ -640,7 +676,7 @@ def explore(ctx, props, features, n_programs, n_schedules, suite='engine_explore
                 ctx.fail(f['signature'], f['what'], {'kind': 'engine-explore', 'yaml': r['yaml'], 'oracle': r['oracle'], 'job': r['job'],
                                                      'meta': r['meta']})
     # schedule independence of the final summary (C02 / C05) for deterministic programs
-    if 'C02' in props or 'C05' in props or 'C10' in props:
+    if 'C02' in props or 'C05' in props or 'C10' in props or 'C06' in props:
         for gi, rs in by.items():
             m = rs[0]['meta']
             if 'cancel' in (m.get('outs') or []) or m.get('child_out') == 'cancel':
@@ -670,7 +706,7 @@ def replay(obj):
     d = ed.Driver(job.get('sched', 'legacy'), 0)
     prog = {'yaml': r['yaml'], 'oracle': {tuple(json.loads(k)): tuple(v) for k, v in r.get('oracle', {}).items()}, 'meta': r['meta']}
     res = run_one(d, prog, job.get('seed', 0), inject_pause=job.get('pause', False), inject_evict=job.get('evict', False),
-                  pause_rate=job.get('pause_rate', 0.06))
+                  pause_rate=job.get('pause_rate', 0.06), inject_dup=job.get('dup', False))
     print(r['yaml'])
     print('summary', res['summary'])
     for f in res['failures']:
